@@ -39,7 +39,7 @@ fn parse_prefix_plus_suffix(prefix: &[u8], maxlen: usize) {
 
 // @harness c19_parser_total_enum
 // @props C19
-// @tier quick
+// @tier off
 // @kind core
 // @timeout 2400
 // @mem 24
@@ -55,4 +55,35 @@ fn parse_prefix_plus_suffix(prefix: &[u8], maxlen: usize) {
 #[kani::stub(alloc::fmt::format, crate::verif_support::fake_format)]
 fn c19_parser_total_enum() {
     parse_prefix_plus_suffix(b"table a \"\" (enum", 3);
+}
+
+fn parse_truncation(schema: &'static [u8]) {
+    let n: usize = kani::any();
+    kani::assume(n <= schema.len());
+    let s = unsafe { core::str::from_utf8_unchecked(&schema[..n]) };
+    let r = parse_autosql(s);
+    let is_ok = r.is_ok();
+    kani::cover!(is_ok, "some truncation parses");
+    let is_err = !is_ok;
+    kani::cover!(is_err, "some truncation is rejected");
+    core::mem::forget(r);
+}
+
+// @harness c19_parser_total_truncations_enum
+// @props C19
+// @tier quick
+// @kind core
+// @timeout 2400
+// @mem 24
+// @unwind_is_property yes
+// @functions bed::autosql::parse::{parse_autosql, parse_declaration_list, parse_declaration, parse_field_list, FieldType::try_parse, DeclareName::parse}, parser::Parser::*
+// @bounds EVERY truncation (symbolic length 0..=33) of the schema `table a "c" (enum(x,y) f;"d")`: the parser must return Ok or Err within the unwinding bound (40 per loop) and never panic
+// @stubs alloc::fmt::format -> empty string
+// @cut other schemas (see the _set/_array variants), single-token mutations, non-ASCII text, the ~1 KB generated schemas
+// @witness cover: some truncation parses; some truncation is rejected
+#[kani::proof]
+#[kani::unwind(40)]
+#[kani::stub(alloc::fmt::format, crate::verif_support::fake_format)]
+fn c19_parser_total_truncations_enum() {
+    parse_truncation(b"table a \"c\" (enum(x,y) f;\"d\")");
 }
